@@ -40,14 +40,15 @@ if not ok:
 t = sh(f"/verif/tools/try_seed.sh {patch} {' '.join(checks)}")
 res["checks_run"] = checks
 res["detected"] = t.returncode == 1
+per = {c: ("VIOLATION (exit 1)" if f"== {c} rc=1" in t.stdout else ("check broken (exit 2)" if f"== {c} rc=2" in t.stdout else "silent (exit 0)")) for c in checks}
 res["check_output"] = t.stdout[-1500:]
 out = f"/verif/seeded/{prop}-{k}"
 os.makedirs(out, exist_ok=True)
 shutil.copy(patch, f"{out}/patch.diff"); shutil.copy(demo, f"{out}/demo.py")
 m = json.load(open(meta)) if os.path.exists(meta) else {}
 m.update({"property": prop, "ran": {"demo_without_patch": "exit 0", "demo_with_patch": f"exit {res['demo_with_patch_rc']}",
-          "suite_with_patch": res["suite_with_patch"], "quick_checks_with_patch": {c: ("VIOLATION (exit 1)" if res["detected"] else f"rc={t.returncode}") for c in checks}},
-          "detected_by": checks if res["detected"] else [], "repo_head": sh("git -C /repo rev-parse --short HEAD").stdout.strip()})
+          "suite_with_patch": res["suite_with_patch"], "quick_checks_with_patch": per},
+          "detected_by": [c for c in checks if per[c].startswith("VIOLATION")], "also_checks": [c for c in checks if c != prop], "repo_head": sh("git -C /repo rev-parse --short HEAD").stdout.strip()})
 json.dump(m, open(f"{out}/meta.json", "w"), indent=1)
 print(("DETECTED " if res["detected"] else "MISSED ") + f"{prop}-{k}: {m.get('summary','')[:150]}")
 print(res["check_output"][-700:])
